@@ -1022,9 +1022,31 @@ fn parts(ctx: &Ctx) -> Vec<PartSpec> {
     v
 }
 
+/// The process's FIRST subscriber carrying a MetricsLayer has another shape than the ones the parts use (an extra,
+/// empty layer below the MetricsLayer): whatever a layer instance sets up must be its own, so the bare
+/// `registry().with(MetricsLayer::new())` subscribers built afterwards work all the same. Run at the start of every part.
+fn other_shape_first(res: &mut PartResult) {
+    struct Nop;
+    impl<S: tracing::Subscriber> tracing_subscriber::Layer<S> for Nop {}
+    let shaped = Dispatch::new(tracing_subscriber::registry().with(Nop).with(MetricsLayer::new()));
+    let log: Log = Default::default();
+    let rec = Filter::All.build(log.clone());
+    tracing::dispatcher::with_default(&shaped, || {
+        let sp = tracing::info_span!("shaped", a = "S");
+        let _g = sp.enter();
+        log.lock().unwrap().clear();
+        let _ = rec.register_counter(&Key::from_name("m"), &META);
+    });
+    let got = log.lock().unwrap().clone();
+    if !format!("{:?}", got).contains("S") {
+        res.violation("span-label-missing", format!("under a subscriber with an extra layer below the MetricsLayer a metric emitted inside span(a=S) reached the recorder as {:?}", got), json!({"other_shape": true}));
+    }
+}
+
 fn run(ctx: &Ctx, spec: &PartSpec) -> PartResult {
     let mut res = PartResult::new(&spec.name, "");
     vseq::quiet_panics();
+    other_shape_first(&mut res);
     if spec.arg["p"].as_str() == Some("values") {
         value_types_part(&mut res);
     } else if spec.arg["p"].as_str() == Some("explicit") {
@@ -1045,7 +1067,7 @@ fn main() {
     driver::main(CheckDef {
         prop: "C17",
         level: "model_checking",
-        rule: "all span trees (chains of nested spans) up to the stated depth where every level independently takes one of 20 variants (fields a,b given at creation or left Empty; a later record() of a or b, either right after creation or after the child span was created), x filters {IncludeAll, custom per-metric closure, Allowlists over {a,b,c}} x metric own-label sets ⊆ {a,c} x 2 metric names x 3 kinds, emitted inside every level, after every subtree, after leaving every level and outside any span, on the real MetricsLayer + TracingContextLayer over a real tracing-subscriber registry, optionally with a second thread holding a conflicting span on the same subscriber; the key reaching the inner recorder is compared with a reference precedence map (metric > inner span > outer span-at-child-creation, record() replaces); plus, at the value-formatting callback inside Span::record (the one point where other code can run during a record), every action of {emit in the span, create a child and emit in it} x {same thread, another thread} and a concurrent record of the other field: the emission sees the labels from before or after the record, never a torn set; plus field value types (str, bool, i64/u64 extremes, Debug, Display, f64, u128, Empty); distinct = distinct resulting label sets; span identity: every sequence of 6 (thorough 8) operations over a pool of 3 spans from ONE callsite with different field values (create under the current span, enter/exit, record, drop the handle, a wide pair of spans with 40 labels created, checked and closed — label maps are pooled —, and the same recorder used for a moment under a second subscriber instance; the recorder's first emission is made before any subscriber exists — so that the registry hands span ids out again), an emission after every step; level shapes include a span created with an empty-string value and a record of two fields in ONE Span::record_all call",
+        rule: "all span trees (chains of nested spans) up to the stated depth where every level independently takes one of 20 variants (fields a,b given at creation or left Empty; a later record() of a or b, either right after creation or after the child span was created), x filters {IncludeAll, custom per-metric closure, Allowlists over {a,b,c}} x metric own-label sets ⊆ {a,c} x 2 metric names x 3 kinds, emitted inside every level, after every subtree, after leaving every level and outside any span, on the real MetricsLayer + TracingContextLayer over a real tracing-subscriber registry, optionally with a second thread holding a conflicting span on the same subscriber; the key reaching the inner recorder is compared with a reference precedence map (metric > inner span > outer span-at-child-creation, record() replaces); plus, at the value-formatting callback inside Span::record (the one point where other code can run during a record), every action of {emit in the span, create a child and emit in it} x {same thread, another thread} and a concurrent record of the other field: the emission sees the labels from before or after the record, never a torn set; plus field value types (str, bool, i64/u64 extremes, Debug, Display, f64, u128, Empty); distinct = distinct resulting label sets; span identity: every sequence of 6 (thorough 8) operations over a pool of 3 spans from ONE callsite with different field values (create under the current span, enter/exit, record, drop the handle, a wide pair of spans with 40 labels created, checked and closed — label maps are pooled —, and the same recorder used for a moment under a second subscriber instance; the recorder's first emission is made before any subscriber exists — so that the registry hands span ids out again), an emission after every step; level shapes include a span created with an empty-string value and a record of two fields in ONE Span::record_all call; every part first uses a subscriber of another shape (an extra empty layer below the MetricsLayer), so the subscribers the parts build are never the process's first",
         assumptions: &["span trees are chains (each span has at most one child): sibling spans are independent by construction of the per-span label map"],
         parts,
         run,
